@@ -310,7 +310,7 @@ def c07_job(chk, rng, i):
     p["bol"] = 10
     p["bar"] = 8
     p["scs"] = rng.choice([0, 0, 1, 2])
-    if i % 5 == 0:
+    if i % 5 == 0 or i % 4 == 2:
         p["extra_alpha"] = b"\x00"
     g, case = base_case(chk, rng, p)
     # overlapping rules: prefixes / duplicates of existing ones
@@ -338,7 +338,12 @@ def c07_job(chk, rng, i):
            "opts": {"bufsize": rng.choice([None, None, 64, 256])}}
     if cfg["opts"]["bufsize"] is None:
         del cfg["opts"]["bufsize"]
-    return {"case": case, "configs": [cfg], "inputs": inputs, "skip_if": dangerous}
+    # batch and interactive scanners find the action after a jam differently
+    mode = rotate(i // 2, [None, False, True, False])
+    if mode is not None:
+        cfg["opts"]["interactive"] = mode
+    return {"case": case, "configs": [cfg], "inputs": inputs, "skip_if": dangerous,
+            "features": ["mode:" + str(mode)]}
 
 
 # ---------------------------------------------------------------------------- C08
